@@ -205,6 +205,32 @@ Theorem C15_sete_calls : forall ext file_text n fuel rif rfor rwh lines w,
   /\ s_eoe (fst (run_until_fail shs (exec_line ext file_text n fuel) lines w)) = true.
 Proof. intros. apply sete_calls_flat; assumption. Qed.
 
+(** 3d. COMBINED: nested blocks, function calls and `source` together (shell-state model), with
+    `set -e` executed anywhere before (top level, inside a body, inside a called function): once
+    exit_on_error is on, every well-formed block the interpreter enters -- its command lines being
+    external commands, `set -e`, calls of functions with bodies of any shape, `source` of any file
+    -- runs as the structured semantics with set -e in effect (first failing statement at any depth
+    ends it). Instance of C14_interp_inv with Inv := flag on, preserved by C15_flag_preserved. *)
+Theorem C15_sete_combined : forall ext file_text n fuel b, wf_block b = true ->
+  forall d in_loop w r txt, (depth_block b < d)%nat -> s_eoe w = true ->
+  run_exp shs (exec_line ext file_text n fuel) no_words no_setvar s_eoe n d (TNode r txt (kids_of_block b)) in_loop w =
+  sem_block shs (exec_line ext file_text n fuel) no_words no_setvar true n b in_loop w.
+Proof. intros ext file_text n fuel. exact (sete_nested_calls ext file_text n fuel). Qed.
+
+(** ... and the remainder of the very body in which `set -e` has just been executed (results so far
+    [acc], the last of them not failing -- `set -e` itself returns 0): the rest of the loop is the
+    semantics with set -e in effect of the remaining statements. What is NOT covered by one
+    equation: the enclosing bodies of that body as wholes (their first part ran with the flag off). *)
+Theorem C15_sete_rest_of_body : forall ext file_text n fuel b, wf_block b = true ->
+  forall d in_loop w acc, (depth_block b <= S d)%nat -> s_eoe w = true -> last_is_nonzero acc = false ->
+  exp_loop shs (exec_line ext file_text n fuel) s_eoe
+    (run_exp_if shs (exec_line ext file_text n fuel) no_words no_setvar s_eoe n d)
+    (run_exp_for shs (exec_line ext file_text n fuel) no_words no_setvar s_eoe n d)
+    (run_exp_while shs (exec_line ext file_text n fuel) no_words no_setvar s_eoe n d)
+    in_loop (kids_of_block b) w acc =
+  prepend_i shs acc (sem_block shs (exec_line ext file_text n fuel) no_words no_setvar true n b in_loop w).
+Proof. intros ext file_text n fuel. exact (sete_rest_of_body ext file_text n fuel). Qed.
+
 (** The property, in full, and its refutation on the faithful model (what is left: a token
     holding a newline is not expanded -- first clause, stated for ALL tokens). *)
 Definition C15_full : Prop :=
@@ -256,4 +282,6 @@ Print Assumptions C15_refuted.
 Print Assumptions C15_sete_calls_instances.
 Print Assumptions C15_flag_preserved.
 Print Assumptions C15_sete_calls.
+Print Assumptions C15_sete_combined.
+Print Assumptions C15_sete_rest_of_body.
 
